@@ -59,6 +59,23 @@ add("C20", "model_checking", "exhaustive exploration of option settings (operati
     "For every (grammar, input) of the space the baseline run is compared with runs under every option setting: trim, recovery off, both, every depth limit from 0 to #applications+3 and 10^6 (with/without trim), and four parsers generated with the options baked into the source. Verdict and action trace must be equal unless MaxParsingDepthExceeded is returned, which must be monotone in the limit, absent at 10^6 and never a panic.",
     BIND)
 
+SCAN = "reference tokenizer = documented rules implemented in the harness with the regex crate (a different engine than scnr2) on anchored slices; scanner under test built from the generated scanner! text"
+add("C13", "model_checking", "exhaustive enumeration of scanner configurations x texts against a reference tokenizer, and exhaustive exploration of lookahead sizes and consumption schedules of the real TokenStream",
+    "Every ordered selection of up to 2 (thorough 3) terminals from a menu of 15 colliding patterns, and every combination of enter/push/pop over 2-3 scanner states, x every text up to length n: the tokens the real TokenStream hands out must equal the reference tokenizer (longest match, first declared on ties, lookahead, state switches, pop on empty stack). The same tokens must be delivered for k = 1, 2, 3 and under every explored schedule of lookahead(i)/consume operations.",
+    SCAN)
+add("C14", "exploration", "bounded exhaustive enumeration of configurations x texts incl. multi-byte characters; geometric checks recomputed from the text",
+    "For every configuration (plain, allow-unmatched, comments, auto-newline/whitespace off; LL and LALR) and every text up to length n over an alphabet with CR, LF, 2- and 4-byte characters: the delivered tokens are contiguous from 0 to the end, carry input[start..end], report line/column recomputed from the text; the leaves of every successful parse tree are exactly these tokens.",
+    "line/column convention: 1-based, LF-based, columns in characters (measured from scnr2 on ASCII, then demanded everywhere)")
+add("C15", "exploration", "bounded exhaustive enumeration of delimiter pairs x texts against naive first-occurrence search",
+    "13 block-comment delimiter pairs covering every border structure of 1-3 character ends and 4 line-comment markers, in raw and escaped spelling, x every text up to length n over the delimiter characters: delivered tokens must equal the reference where a block comment ends at the first occurrence of its end delimiter and a line comment at the end of its line (LF / CR LF) inclusive.",
+    SCAN + "; a lone CR is not treated as a line end (weaker reading)")
+add("C16", "exploration", "bounded exhaustive enumeration of scanner settings x texts; reference tokenizer decides which characters are unmatched",
+    "All combinations of auto-newline, auto-whitespace, allow-unmatched, three grammar bodies, LL/LALR and two-state configurations x every text up to length n over {a,b,blank,tab,LF,CR,?,2-byte char}: unmatched text in a state without allow-unmatched must make the parse fail; with allow-unmatched the verdict is that of the matched tokens alone and the unmatched text is a tree leaf.",
+    SCAN)
+add("C17", "exploration", "bounded exhaustive enumeration of skip-item placements; self-comparison with the undecorated input",
+    "For template grammars (EBNF shapes, left recursion, %skip/%push/%pop state-skip template; LL and LALR) and a sample of the enumerated grammars, every word up to length n and every placement of up to two skip items (blank, LF, tab, line comment, block comments, state-skipped tokens) into its gaps: verdict and action trace equal those of the undecorated word, on_comment receives exactly the comments in order, the tree leaves spell the input.",
+    BIND)
+
 NOT_BUILT = {}
 
 def main():
